@@ -510,6 +510,8 @@ def chain_case(case):
     may_drop_empty = any(tg in ("sparsify", "remove-empty-columns") for tg in tags)
     fills = [tg for tg in tags if tg in ("fill-empty", "fill-empty-v")]
     reordering = any(tg.startswith("sort-within-records") for tg in tags)
+    if "sparsify" in tags and any(tg in tags for tg in ("unsparsify", "unsparsify-fill", "regularize")):
+        reordering = True      # unsparsify / regularize impose the first-seen key order on records that sparsify made different
     positional = (ifmt == "nidx")
 
     def judge(out, where):
